@@ -27,7 +27,8 @@ from vlib.front import unparse, dotted, const_value, AnchorMissing
 M = 'phylib/io/model.py'
 U_ = 'phylib/utils/_misc.py'
 ALF = 'phylib/io/alf.py'
-FLOOR = 16
+FLOOR = 10          # decided obligations below this = the analysis lost its footing (exit 2); clean tree: 29
+RULES = ('C10.D1', 'C10.F1', 'C10.F2', 'C10.P1', 'C10.T1')          # every obligation group must report (holds / violated / undecided): a group that vanishes silently is an analysis error
 SUBSET = ['_phy_spikes_subset.waveforms.npy', '_phy_spikes_subset.spikes.npy', '_phy_spikes_subset.channels.npy']
 EXPLANATION = ('fx engine over the call trees of the four saving methods of TemplateModel (effects with root and name pattern, symbolic '
                'field name) compared with a per-method whitelist; tab rules compare the names / header / exclusion list used by the savers '
@@ -327,6 +328,9 @@ def run(ctx):
     f2_no_alias(ctx)
     t1_agreement(ctx)
     p1_d1(ctx)
+    # metadata values (integers, floats, strings) come back through _try_make_number: its contract is a prerequisite of "the last saved mapping is shown"
+    from obligations.C18 import number_recovery
+    ctx.part('C10.T1', number_recovery, 'C10.T1')
 
 
 LEVEL_TEXT = ('Static effect analysis of the four saving methods of the model against per-method write whitelists (so that no save can touch '
